@@ -76,10 +76,14 @@ func isHarness(f string) bool {
 
 // classify: the goroutines a subscription / a broadcast starts, by the functions on their stacks.
 func classify(g gstack.G) string {
+	// by the function whose `go` statement started the goroutine (the name of the goroutine's own
+	// entry function - a closure or, after a refactoring, a named function - does not matter)
 	switch {
-	case g.Has("finitestate.(*Machine).getStateChanInternal.func1"):
+	case strings.HasSuffix(g.CreatedBy, "finitestate.(*Machine).getStateChanInternal"),
+		g.Has("finitestate.(*Machine).getStateChanInternal.func1"):
 		return "fwd"
-	case g.Has("broadcast.(*Manager).GetStateChan.func1"):
+	case strings.HasSuffix(g.CreatedBy, "broadcast.(*Manager).GetStateChan"),
+		g.Has("broadcast.(*Manager).GetStateChan.func1"):
 		return "cln"
 	}
 	if !isHarness(g.Entry()) {
